@@ -22,7 +22,7 @@ RULE = ('value shape x reference scope x call sequence (each call: caller overri
         'shape holds a reference and the sequence has a mutation or an override.')
 ASSUMPTIONS = ['referenced configurable g returns a fresh list tagged with a global call counter',
                'the consumer returns what it received; the harness mutates it afterwards (same effect as in-body)']
-WITNESSES = ['rebound_scope_exact', 'fresh_per_call', 'not_called_when_positional', 'not_called_when_keyword', 'scoped_ref_exact_scope',
+WITNESSES = ['same_named_configurables_same_scope', 'rebound_scope_exact', 'fresh_per_call', 'not_called_when_positional', 'not_called_when_keyword', 'scoped_ref_exact_scope',
              'unscoped_ref_ambient_scope', 'unevaluated_delivers_registry_version', 'mutation_invisible_later',
              'nested_depth3', 'two_refs_two_calls', 'references_as_dict_keys']
 
@@ -50,6 +50,10 @@ def setup():
     sc.append('MUTATED_BY_CALLEE')      # what current_scope() hands out is the caller's to scribble on
     del sc[:1]
     return ['g', len(CALLS), tag]
+
+  @gin.configurable('g', module='c04other')
+  def g_other(tag='default'):
+    return ['g_other', '/'.join(gin.current_scope()), tag]
 
   @gin.configurable(module='c04')
   def gk(tag='default'):
@@ -417,6 +421,34 @@ def run_rebind(sname, pair, how, res):
   res.outcome('rebind')
 
 
+def run_same_name(order, res):
+  """Two configurables with the same name in different modules, referenced under the very same scope."""
+  desc = ['same_name', order]
+  harness.hard_reset()
+  del CALLS[:]
+  res.case(('same_name', order), True)
+  refs = ['@s/c04.g()', '@s/c04other.g()', '@s/c04.g', '@s/c04other.g', '@s/t/c04other.g()', '@s/t/c04.g()']
+  if order:
+    refs = refs[::-1]
+  try:
+    gin.parse_config("c04.g.tag = 'T'\nc04other.g.tag = 'O'\nc04.consumer.p = [%s]" % ', '.join(refs))
+    got = CONSUMER()
+    seen = []
+    for ref, v in zip(refs, got):
+      r = v() if callable(v) else v
+      seen.append((ref, r[0], r[2]))
+  except Exception as e:  # pylint: disable=broad-except
+    res.violation('call_raised', '%r: %r' % (desc, e), desc)
+    return
+  want = [(ref, 'g_other' if 'other' in ref else 'g', 'O' if 'other' in ref else 'T') for ref in refs]
+  if seen != want:
+    res.violation('delivered_value', '%r: same-named configurables under one scope: delivered %r, expected %r' %
+                  (desc, seen, want), desc)
+  else:
+    res.w('same_named_configurables_same_scope')
+  res.outcome('same_name')
+
+
 def run_override_variants(cname, res):
   """Caller overrides on consumers with other signature shapes (signature-level REQUIRED, keyword-only)."""
   fn = {'strict': STRICT, 'kwonly': KWONLY}[cname]
@@ -449,6 +481,8 @@ def run_override_variants(cname, res):
 
 
 def gen(tier):
+  yield 'SAMENAME', 0, None
+  yield 'SAMENAME', 1, None
   yield 'OVERRIDE', 'strict', None
   yield 'OVERRIDE', 'kwonly', None
   for name in DICTKEY_CASES:
@@ -492,6 +526,9 @@ def run_shard(i, tier):
     if sname == 'OVERRIDE':
       run_override_variants(rscope, res)
       continue
+    if sname == 'SAMENAME':
+      run_same_name(rscope, res)
+      continue
     if sname == 'REBIND':
       run_rebind(rscope[0], rscope[1], seq, res)
       continue
@@ -511,6 +548,10 @@ def replay(desc):
   res = core.Result()
   if desc[0] == 'override':
     run_override_variants(desc[1], res)
+    harness.hard_reset()
+    return res
+  if desc[0] == 'same_name':
+    run_same_name(desc[1], res)
     harness.hard_reset()
     return res
   if desc[0] == 'rebind':
